@@ -10,18 +10,20 @@ from .kinds import parse_kind
 
 
 class Shape:
-    def __init__(self, name, fields, base=None, external=False, ghost=()):
+    def __init__(self, name, fields, base=None, external=False, ghost=(), final=False):
         self.name = name
         self.fields = {f: parse_kind(k) for f, k in fields.items()}
         self.base = base
         self.external = external  # class is not in /repo (or abstract): methods by assumed contract
         self.ghost = set(ghost)
+        self.final = final  # references of this static class are modelled as instances of exactly this (abstract) class
 
 
 class Contract:
     def __init__(self, qual, params=None, returns="none", requires=(), ensures=(), raises=None,
                  modifies=(), decreases=None, assumed=False, self_kind=None, raises_modifies=None,
-                 fresh_result=False, pure=False, note="", group=None, ensures_on_raise=None, opaque_calls=()):
+                 fresh_result=False, pure=False, note="", group=None, ensures_on_raise=None, opaque_calls=(),
+                 for_cls=None):
         self.qual = qual
         self.params = [(n, parse_kind(k)) for n, k in (params or {}).items()] if isinstance(params, dict) else [
             (n, parse_kind(k)) for n, k in (params or [])]
@@ -39,6 +41,7 @@ class Contract:
         self.pure = pure
         self.note = note
         self.group = group  # recursion group name (termination measure compared inside a group)
+        self.for_cls = for_cls  # contract of an inherited method as seen on receivers of this subclass
 
     @property
     def module(self):
@@ -50,6 +53,8 @@ class Contract:
 
     @property
     def clsname(self):
+        if self.for_cls:
+            return self.for_cls
         n = self.name
         return n.split(".")[0] if "." in n else None
 
@@ -116,14 +121,14 @@ class Registry:
         self.axioms = []  # (name, vars, formula-src)
         self.by_method = {}  # (Class, meth) -> Contract
 
-    def shape(self, name, base=None, external=False, ghost=(), **fields):
-        sh = Shape(name, fields, base=base, external=external, ghost=ghost)
+    def shape(self, name, base=None, external=False, ghost=(), final=False, **fields):
+        sh = Shape(name, fields, base=base, external=external, ghost=ghost, final=final)
         self.shapes[name] = sh
         return sh
 
     def contract(self, qual, **kw):
         c = Contract(qual, **kw)
-        self.contracts[qual] = c
+        self.contracts[qual + ("@" + c.for_cls if c.for_cls else "")] = c
         if c.clsname:
             self.by_method[(c.clsname, c.funcname)] = c
         return c
